@@ -34,6 +34,8 @@ struct DataRowIteratorTestData<'a> {
     /// List with the same number of entries as `expected_indices`.
     /// Each non-trivial entry is an index into the output vec from the driver.
     output_indices: Vec<OutputEntryIndex<'a>>,
+    /// Number of entries in the driver's first answer
+    num_outputs: usize,
     prev: Option<Vec<DataEntry>>,
     cache: Vec<DataEntries>,
 }
@@ -254,6 +256,7 @@ impl<'a> DataRowIteratorTestData<'a> {
             .collect::<Vec<_>>();
         if missing.is_empty() {
             self.output_indices = output_indices;
+            self.num_outputs = outputs.len();
             Ok(())
         } else {
             Err(IterationError::Runtime(
@@ -263,10 +266,9 @@ impl<'a> DataRowIteratorTestData<'a> {
     }
 
     fn num_outputs(&self) -> usize {
-        self.output_indices
-            .iter()
-            .filter(|i| matches!(i, OutputEntryIndex::Output(_)))
-            .count()
+        // Every later answer must have the length of the first one, including
+        // entries of the first answer that no signal of the test refers to
+        self.num_outputs
     }
 
     fn extract_output_values<E: std::error::Error>(
@@ -317,6 +319,7 @@ impl<'a> DataRowIteratorTestData<'a> {
             input_indices: &test_case.input_indices,
             expected_indices: &test_case.expected_indices,
             output_indices: vec![],
+            num_outputs: 0,
             prev: None,
             cache: vec![],
         }
